@@ -42,6 +42,7 @@ const (
 	dAnno
 	dCMKeep
 	dIndent
+	dHookCase  // known events in mixed / upper case with spaces around the comma
 	dHookTilde // hook annotation present, value ~ (null)
 	dHookWs    // hook annotation present, value "  " (whitespace only)
 	nDocTypes
@@ -71,6 +72,7 @@ var docTypes = [nDocTypes]docType{
 	// a hook annotation that is present but names nothing: it names no known event, so the document is dropped
 	dHookEmpty: {"hookEmpty", hookHead + "    helm.sh/hook: \"\"\ndata:\n  h: \"1\"\n", "dropped"},
 	dHookNull:  {"hookNull", hookHead + "    helm.sh/hook:\n    example.verif/owner: team\ndata:\n  h: \"1\"\n", "dropped"},
+	dHookCase:  {"hookCase", hookHead + "    helm.sh/hook: \"Pre-Install , POST-UPGRADE\"\ndata:\n  h: \"1\"\n", "hook"},
 	dHookTilde: {"hookTilde", hookHead + "    helm.sh/hook: ~\ndata:\n  h: \"1\"\n", "dropped"},
 	dHookWs:    {"hookWs", hookHead + "    helm.sh/hook: \"  \"\ndata:\n  h: \"1\"\n", "dropped"},
 	dGadget:    {"gadget", "apiVersion: example.verif/v1\nkind: Gadget\nmetadata:\n  name: %s\n", "manifest"},
